@@ -13,6 +13,7 @@ def main():
     ap.add_argument("--tier", default=os.environ.get("VERIF_TIER", "quick"), choices=["quick", "thorough"])
     ap.add_argument("--replay")
     a = ap.parse_args()
+    os.environ["VERIF_TIER"] = a.tier  # read by modules that size second-solver budgets per tier (inherited by workers)
     os.chdir(os.environ.get("VERIF_REPO", "/repo"))
     sys.setrecursionlimit(20000)
     sys.stderr = open(os.devnull, "w") if not os.environ.get("VERIF_DEBUG") else sys.stderr
